@@ -399,6 +399,7 @@ Plan plan_C09(Rng& r, const std::string& tier) {
 			if (r.chance(1, 4)) sa.push_back("e"); if (r.chance(1, 4)) sb.push_back("f");          // symbols present in one operand only
 			FA A, B; gen::gen_fa_incl_pair(r, sa, sb, maxst, A, B);
 			int a = g.load(A), b = g.load(B);
+			if (r.chance(1, 5)) g.out.push_back(cli_step(r, c, 3, 3, mdl::to_lit(A), mdl::to_lit(B)));      // vata -r expl_fa incl
 			if (r.chance(1, 4)) { g.out.push_back(gen::mk(c, "fa_copy", {a})); ++g.n; }
 			int k = r.range(1, 3);
 			for (int i = 0; i < k; ++i) {
@@ -425,6 +426,7 @@ Plan plan_C10(Rng& r, const std::string&) {
 			FA B = r.chance(1, 3) ? gen::derive_fa(r, syms, A, int(r.below(5))) : gen::gen_fa(r, syms, n, r.chance(1, 4));
 			int a = g.load(A), b = g.load(B);
 			if (r.chance(1, 4)) g.value_ops(1);
+			if (r.chance(1, 4)) { long cm[] = {0, 1, 2, 4}; g.out.push_back(cli_step(r, c, 3, cm[r.below(4)], mdl::to_lit(A), mdl::to_lit(B))); }      // vata -r expl_fa load|union|isect|witness [-p|-s]
 			int k = r.range(1, 4);
 			for (int i = 0; i < k; ++i) {
 				switch (r.below(8)) {
